@@ -1585,9 +1585,8 @@ func (p *Peer) setNextAddrFromErr(err error, req *Request, source []string) {
 	}
 	p.peerAddr.Set(source[nextNum])
 
-	// invalidate connection cache
+	// invalidate connection cache: the pool is drained, it is not replaced, other queries of this peer use it at the same time
 	p.closeConnectionPool()
-	p.cache.connectionPool = make(chan net.Conn, p.lmd.Config.MaxParallelPeerConnections)
 
 	switch peerState {
 	case PeerStatusUp, PeerStatusPending, PeerStatusSyncing:
